@@ -593,20 +593,23 @@ class type_base(object):
         
     def __getitem__(self, rng):
         if is_expr_mode():
+            # Reference this term the way every other operator does
+            # (a foreach iterator or an indirectly-referenced field 
+            # is not a plain reference to a field model)
+            self.to_expr()
+            lhs_e = pop_expr()
             if isinstance(rng, slice):
                 # slice
                 to_expr(rng.start)
                 upper = pop_expr()
                 to_expr(rng.stop)
                 lower = pop_expr()
-                return expr(ExprPartselectModel(
-                    ExprFieldRefModel(self._int_field_info.model), upper, lower))
+                return expr(ExprPartselectModel(lhs_e, upper, lower))
             else:
                 # single value
                 to_expr(rng)
                 e = pop_expr()
-                return expr(ExprPartselectModel(
-                    ExprFieldRefModel(self._int_field_info.model), e))
+                return expr(ExprPartselectModel(lhs_e, e))
         else:
             curr = int(self.get_model().get_val())
             if isinstance(rng, slice):
